@@ -313,7 +313,7 @@ func c02FlatCase(res *core.Result, rng *rand.Rand, idx int) {
 		entries := []ref.FlatEntry{}
 		q := []string{}
 		for k := 0; k < n; k++ {
-			key := fmt.Sprintf("k%d", rng.Intn(4)) // duplicates possible
+			key := []string{"k0", "k1", "k 2", "k[3]", "键4", "k_5"}[rng.Intn(6)] // duplicates possible; names that change under percent-encoding
 			if _, ok := rules[key]; !ok {
 				r := gen.RuleList(rng, gen.TString, 4, key, gen.MsgMixed, true)
 				if rng.Intn(8) == 0 && !usedExist {
